@@ -1,8 +1,8 @@
 (* C14 — examples: the hypotheses of the property theorems are satisfiable by
    non-trivial inputs, and the models compute the published values. *)
 From Coq Require Import Sorting.Sorted Sorting.Permutation.
-From Sdns Require Import Common.Base Gen.C14 C14.Model C14.Run
-  C14.Proofs_rsa C14.Proofs_keytag C14.Proofs_rsamd5 C14.Proofs_canon C14.Proofs_verify C14.Proofs_offset.
+From Sdns Require Import Common.Base Common.GoList Gen.C14 C14.Model C14.Run
+  C14.Proofs_rsa C14.Proofs_keytag C14.Proofs_rsamd5 C14.Proofs_canon C14.Proofs_verify C14.Proofs_offset C14.Proofs_walk C14.Proofs_loops.
 Open Scope N_scope.
 
 (* the root zone's KSK-2017: flags 257, protocol 3, algorithm 8; its published key tag is 20326 *)
@@ -77,3 +77,62 @@ Example binding_needs_label_bound :
   let rrset := [mk_rr owner 1 1 0 [65] []] in
   signature_binding k s rrset = E_OK /\ lib_preflight k s rrset = Some false.
 Proof. vm_compute. split; reflexivity. Qed.
+
+(* the message walk: a DNAME of the zone with the CNAME synthesised from it (unsigned), a signed A
+   RRset, an unsigned NS set and a referral remnant in the authority section.  The elliptic oracle
+   is the constant "valid": the example is about the walk, not about Ed25519. *)
+Definition walk_example_key : dnskey := mk_key (bs "Example.") 1 257 3 15 (bs "l02Woi0iS8Aa25FQkUd9RMzZHJpBoRQwAQEX1SxZJA4=").
+Definition walk_example_sig (owner : list N) (covered labels : N) : rrsig :=
+  mk_sig owner 1 covered 15 labels 300 2100000000 1500000000 (key_tag walk_example_key) (bs "EXAMPLE.")
+         (bs "AAAAAAAAAAAAAAAAAAAAAAAAAAAAAAAAAAAAAAAAAAAAAAAAAAAAAAAAAAAAAAAAAAAAAAAAAAAAAAAAAAAAAA==").
+Definition walk_example_dname : rr := mk_rr (bs "D.example.") 39 1 300 (bs "DNAME") [FName (bs "t.net.")].
+Definition walk_example_cname : rr := mk_rr (bs "x.d.Example.") 5 1 300 (bs "CNAME") [FName (bs "X.t.net")].
+Definition walk_example_a : rr := mk_rr (bs "WWW.example.") 1 1 300 (bs "A") [FBytes [192; 0; 2; 1]].
+Definition walk_example_answer : list mitem :=
+  [MR walk_example_dname; MS (walk_example_sig (bs "d.example.") 39 2) true; MR walk_example_cname;
+   MR walk_example_a; MS (walk_example_sig (bs "www.EXAMPLE.") 1 2) true].
+Definition walk_example_ns : list mitem :=
+  [MR (mk_rr (bs "example.") 2 1 300 (bs "NS") [FName (bs "ns.example.")]);
+   MR (mk_rr (bs "other.invalid.") 2 1 60 (bs "NS") [FName (bs "ns.other.invalid.")])].
+Example walk_example_accepted :
+  let H := fun (_ : N) (_ : list N) => @nil N in
+  let F2 := fun (_ : N) (_ : list N) => false in
+  let F4 := fun (_ : N) (_ _ _ : list N) => false in
+  let EDV := fun (_ _ _ : list N) => true in
+  let keys := [(key_tag walk_example_key, [walk_example_key])] in
+  verify_rrsig H F2 F4 EDV (fun _ _ _ => 5) (bs "example") keys walk_example_answer walk_example_ns = true /\
+  walk_records (bs "example") walk_example_answer walk_example_ns = [walk_example_dname; walk_example_a] /\
+  is_synthesized_cname (r_name walk_example_cname) (rr_target walk_example_cname) [(bs "D.example.", bs "t.net.")] = true /\
+  (* without the A RRset's signature the message is refused; a foreign answer record is fatal *)
+  verify_rrsig H F2 F4 EDV (fun _ _ _ => 5) (bs "example") keys (removelast walk_example_answer) walk_example_ns = false /\
+  verify_rrsig H F2 F4 EDV (fun _ _ _ => 5) (bs "example") keys
+    (walk_example_answer ++ [MR (mk_rr (bs "evilexample.") 1 1 60 (bs "A") [FBytes [192; 0; 2; 9]])]) walk_example_ns = false.
+Proof. vm_compute. repeat split; reflexivity. Qed.
+Example walk_verdict_example :
+  walk_verdict (fun set s v => v && (len set =? 1)%N) (bs "example") walk_example_answer walk_example_ns = true.
+Proof. vm_compute. reflexivity. Qed.
+
+(* the translated loops on small inputs *)
+Example keytag_loop_example :
+  go_KeyTag_loop2_run 7 [1; 2; 3; 9] 3%Z = (GoNext, ((7 + 1 * 256 + 2 + 3 * 256)%N, [1; 2; 3; 9], 3%Z)).
+Proof. vm_compute. reflexivity. Qed.
+Example rsamd5_tail_example :
+  go_rsamd5KeyTag_loop2_run [5; 6; 7; 8; 9] [0; 0; 0] 0%Z 4%Z = (GoNext, ([5; 6; 7; 8; 9], [6; 7; 8], 3%Z, 4%Z)).
+Proof. vm_compute. reflexivity. Qed.
+Example fill_chunk_example :
+  go_fillKeyTagChunk 9 [0; 0; 0] [65; 10; 66; 13; 10; 67; 68] = Some (3%Z, 6%Z).
+Proof. vm_compute. reflexivity. Qed.
+Example wire_offset_example :
+  go_wireRdataOffset 30 (hx "03777777076578616d706c6500" ++ hx "00010001000000050004c0000201") = Some (23%Z, true).
+Proof. vm_compute. reflexivity. Qed.
+Example dedup_example :
+  go_canonicalRRset_loop3_run [[1]; [1]; [2]; [1]] [] = (GoNext, ([[1]; [1]; [2]; [1]], [1; 2; 1])).
+Proof. vm_compute. reflexivity. Qed.
+Example pkcs1_ff_example :
+  go_rsaVerifyPKCS1v15_loop1_run 20 8%Z 2%Z [0; 1; 0; 0; 0; 0; 0; 0] = (GoNext, (8%Z, 2%Z, [0; 1; 255; 255; 255; 0; 0; 0], 5%Z)).
+Proof. vm_compute. reflexivity. Qed.
+Example name_in_zone_example :
+  go_NameInZone 40 (bs "foo\.example.com.") (bs "example.com.") = Some false /\
+  go_NameInZone 40 (bs "foo.example.com.") (bs "example.com.") = Some true /\
+  go_NameInZone 40 (bs "foo\\.example.com.") (bs "example.com.") = Some true.
+Proof. vm_compute. repeat split; reflexivity. Qed.
